@@ -21,7 +21,7 @@ RULE = ("cases: (a) field tuples (type, flags, seq, serializer id, payload, anno
 ASSUMPTIONS = ["reference codec in vlib/wire.py (written from the protocol docstring) is the second opinion",
                "zlib is trusted", "any exception type counts as 'raises'"]
 REQUIRED_REACH = ["roundtrip_ok", "hostile_accepted", "hostile_rejected", "oversize_send_refused", "oversize_recv_refused_before_body"]
-SHARD_TIMEOUT = {"quick": 200, "thorough": 2400}
+SHARD_TIMEOUT = {"quick": 480, "thorough": 2400}
 
 U8 = [0, 1, 2, 3, 4, 5, 6, 7, 42, 127, 128, 254, 255]
 U16 = [0, 1, 2, 255, 256, 257, 0x7FFF, 0x8000, 0xFFFE, 0xFFFF, 502, 0x4DC5]
